@@ -86,10 +86,24 @@ def run_family(fam, prop_id, tier, known, stats):
     t0 = time.time()
     # implementation side, sharded over the cores (each worker is a fork: fresh implementation objects per case)
     args = [(fam.name, c) for c in cases]
-    if len(cases) >= 400 and os.environ.get('VERIF_SERIAL') != '1':
+    if os.environ.get('VERIF_SERIAL') != '1':
         import multiprocessing
-        with multiprocessing.get_context('fork').Pool(lib.NPROC) as pool:
-            done = pool.map(_process_case, args, chunksize=max(1, len(args) // (lib.NPROC * 8)))
+        ctx = multiprocessing.get_context('fork')
+        # cases that carry a history are about what earlier inputs leave behind IN THE PROCESS: each of them gets a
+        # process of its own (forked from this one, which never runs the implementation itself)
+        fresh = [i for i, c in enumerate(cases) if isinstance(c, dict) and c.get('history')]
+        normal = [i for i in range(len(cases)) if i not in set(fresh)]
+        done = [None] * len(cases)
+        if normal:
+            with ctx.Pool(lib.NPROC if len(normal) >= 400 else 1) as pool:
+                outs = pool.map(_process_case, [args[i] for i in normal], chunksize=max(1, len(normal) // (lib.NPROC * 8)))
+            for i, o in zip(normal, outs):
+                done[i] = o
+        if fresh:
+            with ctx.Pool(lib.NPROC, maxtasksperchild=1) as pool:
+                outs = pool.map(_process_case, [args[i] for i in fresh], chunksize=1)
+            for i, o in zip(fresh, outs):
+                done[i] = o
     else:
         done = [_process_case(a) for a in args]
     t_impl = time.time() - t0
